@@ -131,8 +131,8 @@ CHECKS["C20"] = {
     "level": "proof",
     "quick_fs": ["default"],
     "thorough_fs": ["default", "both"],
-    "technique": "abstract interpretation of FindChangePoints::next (all arithmetic asserts from the search guards); exact rational Kraft sums over the constant length tables; structural protocol rule",
-    "claim": "Partial, stated as such: (F1) every overflow/underflow assert of the exponential + binary search (current+step, step doubling, left+(right-left)/2, mid+1) is discharged from the guards for ANY function and state, so the iterator cannot wrap around and spin in release builds or panic in debug builds; (F3) the first call yields (0, f(0)), every later item is (x, f(x)) with the remembered state updated together, f is only called through the stored closure; (F4) the three LEN tables are non-decreasing and every prefix satisfies Kraft's inequality (exact rationals). NOT decided: monotonicity/Kraft of the length formulas over 2^64 values and all parameters, and that no change point is skipped.",
+    "technique": "value-partition abstract interpretation of every length function over the whole 64-bit domain (monotonicity per cell and across cells, exact rational Kraft sums over cells); abstract interpretation of FindChangePoints::next (all arithmetic asserts from the search guards); structural protocol rule",
+    "claim": "Partial, stated as such: (F1) every overflow/underflow assert of the exponential + binary search (current+step, step doubling, left+(right-left)/2, mid+1) is discharged from the guards for ANY function and state, so the iterator cannot wrap around and spin in release builds or panic in debug builds; (F3) the first call yields (0, f(0)), every later item is (x, f(x)) with the remembered state updated together, f is only called through the stored closure; (F4) the three LEN tables are non-decreasing and every prefix satisfies Kraft's inequality (exact rationals); (F2) every length function (gamma, delta with every table option, omega, zeta_k, pi_k, exp-Golomb_k, Rice_k for the enumerated k, VByte) is defined on [0, 2^64-2] and non-decreasing over the whole domain: on each cell of a bisection partition its MIR evaluates to a constant or to a monotone composition with exact end values, and end values do not decrease across cells; (F5) for the codes whose cells are constant (all but Rice) the exact rational sum of |cell| * 2^-len over the domain is <= 1, hence Kraft's inequality for every prefix. NOT decided: Golomb (quotient/remainder structure), parameters outside the enumerated lists, Kraft for Rice/Golomb, that no change point is skipped, and termination of consumers of the iterator.",
     "note": "Trusted: rustc MIR/const evaluation, exporter, LP entailment. Hypothesis: f non-decreasing (the debug assertions stating it are not obligations).",
     "explanation": "E3 obligations + table arithmetic + structural rule",
 }
@@ -164,9 +164,9 @@ CHECKS["C18"] = {
     "level": "other",
     "quick_fs": ["default"],
     "thorough_fs": ["default", "both"],
-    "technique": "TypeId-dispatch decision tree, Result discipline, slice-length accounting of the emitted buffer, E3 obligations",
-    "claim": "NARROW, stated as such: (V1) the generic entry points vbyte_write::<E>/vbyte_read::<E> select the _be function exactly when E = BigEndian and the _le one otherwise (sealed two-element Endianness), passing arguments and result through; (V2) the returned length equals what was emitted: BE writers return (8x) the length of buf[pos..], LE writers count exactly one emitted byte per loop iteration, bit_len_vbyte = 8*byte_len_vbyte; (V3) io writers use write_all, io readers read_exact, errors propagated; plus numeric safety of all eight functions (10-byte buffer indices, shifts) under lemma L6. NOT decided and not claimable statically: decode(encode(v)) = v, completeness/uniqueness over all byte strings, agreement of the byte values between the io and bit-stream variants, step positions of the lengths.",
-    "note": "Trusted: rustc MIR, exporter, contracts. This is a structural subset of the property; a change that only alters byte values (e.g. a wrong constant in a length table) is out of reach.",
+    "technique": "value-partition abstract interpretation of the six VByte writers and two length functions over all of u64 (interval + affine domain on MIR, bisection cells); TypeId-dispatch decision tree; Result discipline; E3 obligations",
+    "claim": "NARROW, stated as such: (V1) the generic entry points vbyte_write::<E>/vbyte_read::<E> select the _be function exactly when E = BigEndian and the _le one otherwise (sealed two-element Endianness), passing arguments and result through; (V4) for EVERY 64-bit value (abstract interpretation on a partition of u64, not sampling): byte_len_vbyte/bit_len_vbyte step exactly at 2^7, 2^7+2^14, ... with lengths 1..10 bytes; each of the six writers (bit-stream BE/LE over both stream endiannesses, io BE/LE) emits exactly byte_len_vbyte(value) bytes and returns that count (x8 for bit streams); every emitted byte but the last lies in [0x80,0xFF] and the last in [0,0x7F], so a reader stops exactly after the bytes written; (V3) io writers use write_all, io readers read_exact, errors propagated; plus numeric safety of all eight functions (10-byte buffer indices, shifts) under lemma L6. NOT decided: decode(encode(v)) = v and the payload bits of each byte (values, beyond their ranges), completeness/uniqueness over all byte strings, agreement of the byte values between the io and bit-stream variants.",
+    "note": "Trusted: rustc MIR, exporter, contracts. A change that alters payload bits while keeping every byte in its range and the count right is out of reach.",
     "explanation": "Structural and numeric rules over the eight VByte functions and two dispatchers.",
 }
 
@@ -196,10 +196,10 @@ CHECKS["C06"] = {
     "level": "translation_validation",
     "quick_fs": ["default"],
     "thorough_fs": ["default", "both"],
-    "technique": "symbolic comparison of each code's len function with the value its writer returns (contracts for primitives, canonical linear forms over shared terms); exhaustive table comparison; dispatch-arm rules",
-    "claim": "Partial, stated as such: (L1) every entry of the three LEN tables and six WRITE_LEN tables equals the reference length; (L3) for gamma, delta, zeta, minimal binary, pi, Rice, Golomb and exp-Golomb the value returned by the writer - with write_bits(_, n) counted as n, write_unary(v) as v+1 and nested code writes as their len function (C01.W5 shows these returns equal the bits appended) - is, path by path and under the same guards, the same linear expression as the len function over the same terms (ilog2, shifts, quotients, the minimal-binary limit); (L5) all length dispatchers name the len function of their code. Not covered: omega (recursion) and VByte lengths, consumption by readers (needs duality), and that the shared formulas are the right ones (they are compared with each other and, below WRITE_MAX, with the reference).",
+    "technique": "value-partition abstract interpretation of writers and length functions over the whole 64-bit domain (interval + monotonicity + affine domain on MIR, cells found by bisection, common refinement compared cell by cell); symbolic comparison of len and write-return expressions (linear forms); exhaustive table comparison; dispatch-arm rules",
+    "claim": "Partial, stated as such: (L1) every entry of the three LEN tables and six WRITE_LEN tables equals the reference length; (L3) for gamma, delta, zeta, minimal binary, pi, Rice, Golomb and exp-Golomb the value returned by the writer - with write_bits(_, n) counted as n, write_unary(v) as v+1 and nested code writes as their len function (C01.W5 shows these returns equal the bits appended) - is, path by path and under the same guards, the same linear expression as the len function over the same terms (ilog2, shifts, quotients, the minimal-binary limit); (L4) for gamma, delta, zeta_k, omega, pi_k, exp-Golomb_k and the six VByte writers, for both stream endiannesses and every table option, the MIR of the writer and of the length function is interpreted abstractly on a partition of [0, 2^64-1] (every branch decided per cell, cells split until the result is constant): on every cell of the common refinement the returned count equals the length function and equals the sum of the widths of the primitive emissions, so len = write return = bits handed to the backend for EVERY 64-bit value (not a sample), and both are defined up to 2^64-2; (L5) all length dispatchers name the len function of their code. Not covered: consumption by readers (stream-dependent), Rice/Golomb/minimal binary in L4 (covered by L3 only), parameters outside the enumerated lists, and the bits appended by the backend for a given primitive call (that is C01.W5).",
     "note": "Trusted: rustc MIR/const evaluation, exporter, refcodes.py, primitive return contracts.",
-    "explanation": "symbolic equality of len and write-return expressions + tables + dispatch arms",
+    "explanation": "whole-domain abstract interpretation (len = write return = emitted widths on every cell) + symbolic equality of len and write-return expressions + tables + dispatch arms",
 }
 
 CHECKS["C04"] = {
